@@ -17,7 +17,11 @@ Every call is made twice with the same seed (the global numpy generator is re-se
 in between): "same result" and "input bit-identical afterwards" enter the case as booleans.
 """
 import itertools
+import json
 import math
+import os
+import subprocess
+import sys
 
 import numpy
 import torch
@@ -245,6 +249,59 @@ def call_once(inp, X):
 
 
 def run_impl(inp):
+    """compiled (numba, no bounds checks) calls run in a worker process: if the interpreter dies
+    the case is reported as a failing input instead of taking the whole check down"""
+    if inp['kind'] == 'obs' and os.environ.get('VERIF_C02_WORKER') != '1':
+        return run_isolated(inp)
+    return run_local(inp)
+
+
+_WORKER = None
+
+
+def _worker():
+    global _WORKER
+    if _WORKER is None or _WORKER.poll() is not None:
+        env = dict(os.environ, VERIF_C02_WORKER='1')
+        _WORKER = subprocess.Popen([sys.executable, '-W', 'ignore', '-m', 'harness.c02', '--worker'],
+                                   stdin=subprocess.PIPE, stdout=subprocess.PIPE,
+                                   stderr=subprocess.DEVNULL, text=True, cwd=C.VERIF, env=env)
+    return _WORKER
+
+
+def run_isolated(inp):
+    global _WORKER
+    w = _worker()
+    line = ''
+    try:
+        w.stdin.write(json.dumps(inp) + '\n')
+        w.stdin.flush()
+        while True:
+            line = w.stdout.readline()
+            if not line or line.startswith('@@'):
+                break
+    except (BrokenPipeError, OSError):
+        line = ''
+    if not line:
+        try:
+            w.kill()
+        except Exception:
+            pass
+        rc = w.wait()
+        _WORKER = None
+        return {'ok': True, 'Y': 'shape', 'err': 'CRASH: the interpreter died during the call (exit %s)' % rc,
+                'unchanged': False, 'same': False}
+    return json.loads(line[2:])
+
+
+def worker_main():
+    for line in sys.stdin:
+        out = run_local(json.loads(line))
+        sys.stdout.write('@@' + json.dumps(out) + '\n')
+        sys.stdout.flush()
+
+
+def run_local(inp):
     A = inp['A']
     dtype = torch.float32 if inp.get('dtype') == 'f32' else torch.int8
     X = to_tensor(A, inp['seqs'], dtype)
@@ -540,3 +597,7 @@ def search(rng, disagreeing):
                 for kind in ('obs', 'shuf'):
                     yield {'kind': kind, 'A': inp['A'], 'seqs': inp['seqs'], 'start': st, 'end': en,
                            'n': rng.choice([1, 2, 3]), 'seed': seed}
+
+
+if __name__ == '__main__' and '--worker' in sys.argv:
+    worker_main()
